@@ -190,6 +190,39 @@ func crKeyFrameC(k *crstate.KeyFrame) string {
 		cF(k.CommitteeUsedAmount), cN(uint64(k.CRAssetsAddressUTXOCount)), cN(uint64(k.CurrentWithdrawFromSideChainIndex)))
 }
 
+func crInfoC(i payload.CRInfo) string {
+	return tup(cB(i.Code), c168(i.CID), c168(i.DID), cS(i.NickName), cS(i.Url), cN(i.Location))
+}
+
+func candidateV(v reflect.Value) string {
+	c := v.Interface().(*crstate.Candidate)
+	return tup(crInfoC(c.Info), cN(uint64(c.State)), cF(c.Votes), cN(uint64(c.RegisterHeight)), cN(uint64(c.CancelHeight)), c168(c.DepositHash))
+}
+
+func votesLockListV(v reflect.Value) string {
+	return votesLockList(v.Interface().([]payload.VotesWithLockTime))
+}
+
+func crStateKeyFrameC(k *crstate.StateKeyFrame) string {
+	var hk []uint64
+	for s := range k.HistoryCandidates {
+		hk = append(hk, s)
+	}
+	sort.Slice(hk, func(i, j int) bool { return hk[i] < hk[j] })
+	hs := make([]string, len(hk))
+	for i, s := range hk {
+		hs[i] = "(" + cN(s) + ", " + mapOf(k.HistoryCandidates[s], candidateV) + ")"
+	}
+	return tup(mapOf(k.CodeCIDMap, h168V), mapOf(k.DepositHashCIDMap, h168V), mapOf(k.Candidates, candidateV), lst(hs),
+		mapOf(k.DepositInfo, func(v reflect.Value) string {
+			d := v.Interface().(*crstate.DepositInfo)
+			return tup(cF(d.DepositAmount), cF(d.Penalty), cF(d.TotalAmount))
+		}),
+		cN(k.CurrentSession), mapOf(k.Nicknames, unitV), mapOf(k.Votes, unitV),
+		mapOf(k.DepositOutputs, f64V), mapOf(k.CRCFoundationOutputs, f64V), mapOf(k.CRCCommitteeOutputs, f64V),
+		mapOf(k.UsedCRVotes, votesLockListV), mapOf(k.UsedCRImpeachmentVotes, votesLockListV), mapOf(k.UsedCRCProposalVotes, votesLockListV))
+}
+
 // coqCase returns (codec name, value term) for the targets the model covers.
 func coqCase(name string, x interface{}) (codec, term string, ok bool) {
 	switch v := x.(type) {
@@ -203,6 +236,8 @@ func coqCase(name string, x interface{}) (codec, term string, ok bool) {
 		return "cr_key_frame", crKeyFrameC(v), true
 	case *crstate.CRMember:
 		return "cr_member", crMemberC(v), true
+	case *crstate.StateKeyFrame:
+		return "cr_state_key_frame", crStateKeyFrameC(v), true
 	}
 	return "", "", false
 }
